@@ -73,7 +73,7 @@ def run_case(case: dict) -> list[tuple[str, str]]:
     as_set = api == "rdflib"  # rdflib containers are sets: its iteration order, not pyjelly's
 
     def same_statements(got) -> bool:
-        return (sorted(set(got)) == sorted(set(expect_st))) if as_set else got == expect_st
+        return (set(got) == set(expect_st)) if as_set else got == expect_st
 
     try:
         on = write(api, cls, seq, bindings, preset, True)
